@@ -32,6 +32,9 @@ func buildMatcher(m *MatcherX) mux.Matcher {
 	case "pathver":
 		return mux.NewPathVersion(m.Param, append([]string{}, m.Versions...)...)
 	case "headerver":
+		if m.Key != "" { // a custom key with the default (nil) error log
+			return mux.NewHeaderVersion(m.Param, m.Key, nil, m.Versions...)
+		}
 		return mux.NewHeaderVersion(m.Param, m.Key, func(error) {}, m.Versions...)
 	case "and", "or":
 		ms := make([]mux.Matcher, len(m.Ms))
